@@ -226,7 +226,7 @@ func short(err error) string {
 var cancelCheck = hx.NewCheck("cancel_every_poll", oracleCancel)
 
 func features() sqlgen.Features {
-	f := sqlgen.AllFeatures()
+	f := sqlgen.FullFeatures()
 	f.MaxDepth = 3
 	return f
 }
